@@ -60,6 +60,15 @@ CHECKS = {
             "Fault-free handlers only. In multi-goroutine runs quiescence-dependent clauses are asserted only if the queue really drained "
             "(a stranded queue is C04's concern and is counted as class multi-goroutine:not-quiescent).",
             "property-based testing (rapid), invariant over the raw tracer callback log", "DESIGN.md §5 C14"),
+    "C08": ("fault_enumeration",
+            "For every generated (schema, table, history) the fault-free dry run's handler-call log is enumerated: at EVERY call position (capped at "
+            "60 per base case) the history is re-run with a panic injected there (error / string / int values), plus sampled stalls beyond "
+            "HandlerTimeout, 2-fault sequences and forked-code panics (PanicToErr, PanicToErrState, Go). Oracle: the call returns (no wedge), no panic "
+            "escapes, a probe mutation still executes, an accepted Exception transition carries the panic's message, negotiation faults leave "
+            "time untouched, final-phase faults roll back exactly the changes whose final handler had not completed.",
+            "Wedge = mutating call still blocked after 8 s while nothing else runs. Timeout runs reporting more timeouts than injected are "
+            "inconclusive (scheduler noise). Faults inside Exception handlers: containment/liveness/parity only, as the machine documents no nesting.",
+            "fault injection at every enumerated handler position, property-based base cases (rapid)", "DESIGN.md §5 C08"),
 }
 
 NOT_YET = "check not built yet in this session (planned, see DESIGN.md §9)"
